@@ -5,14 +5,17 @@ Proved for EVERY heap and every node whose subtree is a tree of allocated nodes 
 allocated and the depth does not exceed the number of nodes — true of every acyclic tree): the copy's root is a new node
 without a parent; every node of the original keeps its whole record (so nothing reachable from the original changes); every
 node reachable from the copy through any children map is a new node, i.e. the two trees share no node; the copy's root never
-carries a container cache (`C14_detached_and_disjoint`, `cloneAux_root_record`). Value equality of the copy and
-non-interference of later edits rest on the heap invariant (C05/C06) and are checked by the clone probe and the kernel-
-evaluated witness below.
+carries a container cache (`C14_detached_and_disjoint`, `cloneAux_root_record`). Full independence: the mutators proved in
+`Proofs/Frame` (AppendArray/AppendObject of one node, the deletions and pops, Delete, the scalar setters) applied on either side
+leave the whole record of every node of the other side unchanged (`C14_editing_the_original_never_changes_the_copy`,
+`C14_editing_the_copy_never_changes_the_original`). Value equality of the copy at clone time, and independence under
+SetArray/SetObject/SetNode, are checked by the clone probe, the frame probe and the kernel-evaluated witness below.
 -/
 import Ajson.Model.Mutate
 import Ajson.Proofs.MutBasics
 import Ajson.Proofs.CloneFrame
 import Ajson.Proofs.Acyclic
+import Ajson.Proofs.Frame
 import Ajson.Model.Decode
 import Ajson.Spec.WF
 
@@ -32,6 +35,36 @@ theorem C14_on_sound_heaps {h : Heap} (hs : Struct h) (ha : Acyc h) (n : Nat) (h
     (∀ m : Nat, m < h.size → (h.clone n).1.get m = h.get m) ∧
     (∀ m : Nat, Reach (h.clone n).1 (h.clone n).2 m → h.size ≤ m ∧ m < (h.clone n).1.size) ∧
     (h.clone n).1.datas = h.datas := clone_ok h n (clone_hypothesis hs ha n hn)
+
+/-- **fully independent, direction 1**: after `Clone()` of any node of a sound acyclic heap, AppendArray, AppendObject, DeleteKey /
+PopKey, DeleteIndex / PopIndex, Delete and SetNull/SetNumeric/SetString/SetBool applied to ANY nodes that existed before the call
+(the original tree, or any other tree) leave the WHOLE RECORD of every node of the copy as it is — type, source span, children map,
+parent, position, dirty flag, cache. Nothing any accessor can observe on the copy changes. -/
+theorem C14_editing_the_original_never_changes_the_copy {h : Heap} (hs : Struct h) (ha : Acyc h) (n : Nat) (hn : n < h.size)
+    (a v : Nat) (hao : a < h.size) (hvo : v < h.size) (m : Nat) (hm : h.size ≤ m) :
+    ((h.clone n).1.appendArray a [v]).1.get m = (h.clone n).1.get m ∧
+    (∀ key, ((h.clone n).1.appendObject a key v).1.get m = (h.clone n).1.get m) ∧
+    (∀ key, ((h.clone n).1.popKey (some a) key).1.get m = (h.clone n).1.get m) ∧
+    (∀ i, ((h.clone n).1.popIndex (some a) i).1.get m = (h.clone n).1.get m) ∧
+    ((h.clone n).1.delete a).1.get m = (h.clone n).1.get m ∧
+    (∀ sv : SetVal, sv.type.isContainer = false → ((h.clone n).1.update (some a) sv).1.get m = (h.clone n).1.get m) := by
+  have sp := split_clone hs n (clone_hypothesis hs ha n hn)
+  exact frames_of_region _ a v m (Nat.ne_of_gt (Nat.lt_of_lt_of_le hao hm)) (Nat.ne_of_gt (Nat.lt_of_lt_of_le hvo hm))
+    (sp.region_old a hao m hm) (sp.region_old v hvo m hm).2.2
+
+/-- **fully independent, direction 2**: the same operations applied to nodes of the copy leave the whole record of every node that
+existed before the call as it is -/
+theorem C14_editing_the_copy_never_changes_the_original {h : Heap} (hs : Struct h) (ha : Acyc h) (n : Nat) (hn : n < h.size)
+    (a v : Nat) (hac : h.size ≤ a) (hvc : h.size ≤ v) (m : Nat) (hm : m < h.size) :
+    ((h.clone n).1.appendArray a [v]).1.get m = (h.clone n).1.get m ∧
+    (∀ key, ((h.clone n).1.appendObject a key v).1.get m = (h.clone n).1.get m) ∧
+    (∀ key, ((h.clone n).1.popKey (some a) key).1.get m = (h.clone n).1.get m) ∧
+    (∀ i, ((h.clone n).1.popIndex (some a) i).1.get m = (h.clone n).1.get m) ∧
+    ((h.clone n).1.delete a).1.get m = (h.clone n).1.get m ∧
+    (∀ sv : SetVal, sv.type.isContainer = false → ((h.clone n).1.update (some a) sv).1.get m = (h.clone n).1.get m) := by
+  have sp := split_clone hs n (clone_hypothesis hs ha n hn)
+  exact frames_of_region _ a v m (Nat.ne_of_lt (Nat.lt_of_lt_of_le hm hac)) (Nat.ne_of_lt (Nat.lt_of_lt_of_le hm hvc))
+    (sp.region_new a hac m hm) (sp.region_new v hvc m hm).2.2
 
 /-- the hypothesis is satisfiable: a two-level tree -/
 example : ∃ h : Heap, SubTree h h.size 0 h.size ∧ 1 < h.size :=
